@@ -275,7 +275,9 @@ impl Polyhedron {
             points.push((m * p.as_pt4(1.0)).as_pt3() + path[0]);
         }
         if !closed {
-            let indices = triangulate3d_rev(&profile, path[1] - path[0]);
+            // triangulate the placed ring: the unplaced profile lies in the XY plane whatever
+            // direction the path starts in
+            let indices = triangulate3d_rev(&points, path[1] - path[0]);
             for i in (0..indices.len()).step_by(3) {
                 faces.push(Indices::from_indices(vec![
                     indices[i],
